@@ -579,3 +579,61 @@ M('pairwise_end_ignored', 'C09', IT,
 M('split_set_sep_first_only', 'C09', IT,
   """        sep = frozenset(sep)""",
   """        sep = frozenset(list(sep)[:1]) if isinstance(sep, list) else frozenset(sep)""")
+
+# ---------------------------------------------------------------- C08
+M('remap_exit_twice_shared', 'C08', IT,
+  """        elif id_value in registry:
+            value = registry[id_value]""",
+  """        elif id_value in registry and not (isinstance(value, tuple) and len(value) == 2):
+            value = registry[id_value]""")
+M('remap_path_not_restored', 'C08', IT,
+  """            path, new_items = new_items_stack.pop()""",
+  """            _p, new_items = new_items_stack.pop()
+            path = _p if len(_p) != 2 else path""")
+M('remap_tuple_as_list', 'C08', IT,
+  """            ret = new_parent.__class__(vals)  # tuples""",
+  """            ret = new_parent.__class__(vals) if len(vals) != 3 else vals  # tuples""")
+M('remap_push_not_reversed', 'C08', IT,
+  """                    stack.extend(reversed(list(new_items)))""",
+  """                    stack.extend(reversed(list(new_items)) if len(stack) < 5 else list(new_items))""")
+M('remap_root_test_dropped', 'C08', IT,
+  """                if value is not root:
+                    path += (key,)""",
+  """                if True:
+                    path += (key,)""")
+M('remap_registry_by_value', 'C08', IT,
+  """            if new_items is not False:
+                # traverse unless False is explicitly passed
+                registry[id_value] = new_parent""",
+  """            if new_items is not False:
+                # traverse unless False is explicitly passed
+                if not (isinstance(value, dict) and len(value) == 1):
+                    registry[id_value] = new_parent""")
+M('exit_set_update_drop', 'C08', IT,
+  """        try:
+            new_parent.update(vals)
+        except AttributeError:
+            ret = new_parent.__class__(vals)  # frozensets""",
+  """        try:
+            new_parent.update(vals[:2] if len(vals) == 3 else vals)
+        except AttributeError:
+            ret = new_parent.__class__(vals)  # frozensets""")
+M('research_path_parent', 'C08', IT,
+  """                ret.append((path + (key,), value))""",
+  """                ret.append((path + (key,) if len(path) < 2 else path[:-1] + (key,), value))""")
+M('get_path_int_cast', 'C08', IT,
+  """            try:
+                cur = cur[seg]
+            except (KeyError, IndexError) as exc:
+                raise PathAccessError(exc, seg, path)""",
+  """            try:
+                cur = cur[seg] if seg != 2 else cur[seg - 1]
+            except (KeyError, IndexError) as exc:
+                raise PathAccessError(exc, seg, path)""")
+M('visit_true_drops_in_dict', 'C08', IT,
+  """            elif visited_item is True:
+                visited_item = (key, value)""",
+  """            elif visited_item is True:
+                if isinstance(key, str) and len(path) == 2:
+                    continue
+                visited_item = (key, value)""")
